@@ -459,7 +459,8 @@ func (s *Session) onPlay(resp *Response, req *Request) (err error) {
 		err = s.asMulticastConsumer(stream, resp)
 	}
 
-	if err == nil {
+	// 被拒绝的 PLAY（461、500…）不改变会话状态
+	if err == nil && resp.StatusCode == StatusOK {
 		s.status = statusPlaying
 	}
 	return
